@@ -2,7 +2,7 @@ import Qv.Proofs.PcboLe
 /-!
 # C02: `add_constraint_le_zero` — decision tree, bookkeeping, semantics
 -/
-namespace Qv
+namespace Qv.PcboP
 
 /-- the decision tree of `addLeZero`, with the slack / no-slack branches unified
 (`slackLoop … 0 = (s, P, hi)`) -/
@@ -160,4 +160,4 @@ theorem addLeZero_sem {st : St} {P : Poly} {lam : Rat} {lt : Bool} {b : Option R
       have : 0 < eval x P := not_le.1 hr
       intro h0; linarith
 
-end Qv
+end Qv.PcboP
